@@ -169,11 +169,16 @@ def _local_call(node):
     if node[0] not in ("call", "mcall"):
         return None
     fn = node[1].get("inst") or H.declared_callee(node) or ""
+    decl = H.declared_callee(node) or ""
+    if decl.startswith("gamedig::socket::Socket::"):
+        fn = decl  # the socket type is a feature-dependent alias (plain or capturing wrapper): name the trait method
     if not fn.startswith("gamedig::") or fn.startswith(("gamedig::buffer::", "gamedig::errors::")) or node[1].get("ctor"):
         return None
     if fn.endswith(("::context", "::into", "::from")):
         return None
     ga = [_short_ty(x) for x in (node[1].get("inst_gargs") or []) if not x.startswith("'")]
+    if decl.startswith("gamedig::socket::Socket::"):
+        ga = []
     return "call %s%s" % (fn.split("gamedig::")[-1], "<" + ",".join(ga) + ">" if ga else "")
 
 
@@ -299,6 +304,44 @@ def extract(f, calls=False):
         # `for` desugaring produces match(into_iter(..))=>iter, loop, match(next(&iter))=>Some(x): fold to one entry
         ctx = _fold_for(ctx)
         rows.append({"op": op, "via": via, "dest": dest, "ctx": ctx, "at": node[1].get("at")})
+        # a lookup that is only the scrutinee/condition of a value-producing match/if whose arms hold no further
+        # wire operation: the arms ARE the decoding rule (e.g. reported-vs-listed player count) - record them
+        if via and via[-1] in ("match-scrutinee", "if-cond"):
+            chain = list(parents) + [node]
+            m = None
+            for i in range(len(chain) - 1, 0, -1):
+                anc, ch = chain[i - 1], chain[i]
+                if (anc[0] == "match" and anc[1].get("src") == "normal" and anc[2] is ch) or (anc[0] == "if" and anc[2] is ch):
+                    m = (i - 1, anc)
+                    break
+            if m is not None:
+                mi, mnode = m
+                arms = mnode[3:]
+                if not any(_has_op(a_, calls) for a_ in arms):
+                    d2 = None
+                    top = mnode
+                    for j in range(mi - 1, -1, -1):
+                        anc = chain[j]
+                        k2 = anc[0]
+                        if k2 == "fld":
+                            stn = chain[j - 1] if j > 0 else None
+                            nm2 = "?"
+                            if stn is not None and stn[0] == "struct":
+                                nm2 = (stn[1].get("adt") or stn[1].get("text", "?")).split("::")[-1]
+                            d2 = ("fld", anc[1]["name"], nm2)
+                            break
+                        if k2 == "let":
+                            pat = anc[2]
+                            d2 = ("let", pat[1]["name"], None) if pat[0] == "pbind" else ("letpat", H.show_pat(pat), None)
+                            break
+                        if k2 in ("stmt", "arm", "loop", "closure") or (k2 == "block" and chain[j + 1] is not anc[-1]):
+                            break
+                        top = anc if k2 in ("cast", "call", "mcall", "un", "bin") else top
+                    if d2 is not None:
+                        rows.append({"op": "derive " + H.show(top).replace("core::option::Option::", ""), "via": [], "dest": d2,
+                                     "ctx": ctx, "at": mnode[1].get("at")})
+                        if d2[0] == "let":
+                            binds.setdefault(d2[1], len(rows) - 1)
         if dest and dest[0] == "let":
             binds[dest[1]] = len(rows) - 1
     # let-bound locals without a wire op that feed an op row / struct field: record what they are bound to
